@@ -143,6 +143,11 @@ pub fn c04(buf: &[u8], o: &Obs) -> Option<Fail> {
             Slot::Hdr(n, v) => return fail("slot_outside_buffer", format!("slot {} holds name={:?} value={:?}", i, n, v)),
         }
     }
+    // uninit entry points must not expose the (possibly uninitialised) array after Partial / Err:
+    // whatever `headers` then shows was not parsed from this buffer
+    if o.entry.is_uninit() && !r.st.is_complete() && o.panic.is_none() && !o.hdr_at_own {
+        return fail("headers_exposed_after_failure", format!("uninit entry point, outcome {}, but `headers` no longer is the value's own slice (len {})", r.st.show(), o.hdr_len));
+    }
     if let St::Complete(n) = r.st {
         // inside the consumed head, in input order, non-overlapping
         let mut seq: Vec<(&str, usize, usize)> = Vec::new();
